@@ -376,17 +376,18 @@ def copy_node(n):
     return _c.deepcopy(n)
 
 
-def conc_template(depth, fan, width=2, map_at=None, async_leaves=True):
+def conc_template(depth, fan, width=2, map_at=None, async_leaves=True, sync_last=False, pool=False):
     """Nested / mapped shape for the concurrency checks: `depth` nested graph levels, each with
     `width` parallel leaves and a join; at level `map_at` the nested node maps over a list of `fan`
     items.  Returns (prog, provided, lists)."""
-    def A(name, ins, outs):
-        return IR.func(name, ins, outs, is_async=async_leaves)
+    def A(name, ins, outs, sync=False):
+        return IR.func(name, ins, outs, is_async=async_leaves and not sync)
 
     def level(d):
         """program of nesting level d (1 = outermost nested graph); its input is `v` (and the list
-        `vs` when a deeper level maps over it), output `r{d}`"""
-        leaves = [A(f"L{d}_{i}", ["v"], [f"l{d}_{i}"]) for i in range(width)]
+        `vs` when a deeper level maps over it), output `r{d}`; with sync_last the last leaf of every
+        level is a SYNCHRONOUS function (listed after the async ones, so that they hold their slots first)"""
+        leaves = [A(f"L{d}_{i}", ["v"], [f"l{d}_{i}"], sync=sync_last and i == width - 1) for i in range(width)]
         nodes = list(leaves)
         join_in = [f"l{d}_{i}" for i in range(width)]
         if d < depth:
@@ -403,7 +404,7 @@ def conc_template(depth, fan, width=2, map_at=None, async_leaves=True):
         return IR.prog(f"G{d}", nodes, max_iter=1000, selected=[f"r{d}"])
 
     lists, provided = [], [["v", "in.v"]]
-    top_nodes = [A(f"T{i}", ["v"], [f"t{i}"]) for i in range(width)]
+    top_nodes = [A(f"T{i}", ["v"], [f"t{i}"], sync=sync_last and i == width - 1) for i in range(width)]
     if depth >= 1:
         sub = level(1)
         if map_at == 1:
@@ -417,6 +418,10 @@ def conc_template(depth, fan, width=2, map_at=None, async_leaves=True):
         text = "[" + ";".join(items) + "]"
         lists.append([text, items])
         provided.append(["vs", text])
+    if pool:
+        # the program of runner.map(G1's graph, {v: items}, map_over="v"): only the mapped node at top level
+        assert map_at == 1
+        return IR.prog("top", [top_nodes[-1]], max_iter=50), [provided[-1]], lists
     top_nodes.append(A("Z", [f"t{i}" for i in range(width)] + (["r1"] if depth >= 1 else []), ["z"]))
     return IR.prog("top", top_nodes, max_iter=50), provided, lists
 
